@@ -118,6 +118,10 @@ def units(rng, tier):
             if idsx is not None:
                 u["family"] += "/names-from-values"
             us.append(u)
+    # the EMPTY input in every presentation (an empty list, array, tuple, dict ...) for the packers and the covers
+    for a in PACK + COVER:
+        C = rng.choice([6, 10])
+        us += group(rng, lambda fmt, ids, a=a, C=C: pack_unit(a, C, [], rng, fmt=fmt, cmp="bins", family="empty-input", ids=ids), [], [])
     # complete KK on layered values (see gen.layered; repair D11): every presentation must give the same sums
     for _ in range(20 if tier == "quick" else 300):
         kk, v = gen.layered(rng)
